@@ -133,7 +133,7 @@ def main(argv=None):
         for case, res in results[:2]:
             samples.append(res.get("sample") or _shorten(case))
 
-    rdir = os.path.join(ROOT, "replay", pid)
+    rdir = os.path.join(os.environ.get("VF_REPLAY_DIR") or os.path.join(ROOT, "replay"), pid)
     if os.path.isdir(rdir):
         for fn in os.listdir(rdir):
             if fn.endswith(".json"):
@@ -200,8 +200,9 @@ def main(argv=None):
         ev["coverage"]["exhaustive_subspace"] = mod.EXHAUSTIVE[tier]
     if hasattr(mod, "evidence_extra"):
         ev["coverage"].update(mod.evidence_extra(results, tier))
-    os.makedirs(os.path.join(ROOT, "evidence"), exist_ok=True)
-    with open(os.path.join(ROOT, "evidence", "%s.json" % pid), "w") as f:
+    evdir = os.environ.get("VF_EVIDENCE_DIR") or os.path.join(ROOT, "evidence")  # seeded-break drills write elsewhere
+    os.makedirs(evdir, exist_ok=True)
+    with open(os.path.join(evdir, "%s.json" % pid), "w") as f:
         json.dump(ev, f, indent=1, default=str)
     print("%s: %s  evaluations=%d distinct=%d inconclusive=%d known=%d violations=%d wall=%.0fs" % (
         pid, status, n_eval, len(cells), n_inc, sum(len(v) for v in known_hit.values()), ev["violations"], ev["wall_s"]), file=sys.stderr)
